@@ -172,6 +172,25 @@ def exhaustive(ctx):
     ctx.cov["metricscount_model_checked"] = True
 
 
+def crash_in_collectors(out):
+    """A Go panic / fatal error whose goroutine stack has a frame in the repository's prometheus package (harness files
+    excluded) -> (kind, where, text); None otherwise (a crash of the harness itself is not a verdict)."""
+    m = re.search(r"^(fatal error: .*|panic: .*)$", out, re.M)
+    if not m:
+        return None
+    text = out[m.start():]
+    fr = None
+    for pre in (vlib.REPO.rstrip("/") + "/", "/repo/"):
+        fr = re.search(r"^\s+%s((?:prometheus|ipinfo|service)/(?!zz_verif_)[^\s:]+\.go):(\d+)" % re.escape(pre), text, re.M)
+        if fr:
+            break
+    if not fr:
+        return None
+    where = "%s:%s" % (fr.group(1), fr.group(2))
+    kind = "concurrent-map-access" if "concurrent map" in m.group(1) else "crash-under-concurrent-use"
+    return kind, where, text
+
+
 def _seq(ctx, behs, tag, desc):
     rc, out, rows = run_overlay(ctx, behs, "seq", tag=tag)
     if rc != 0 or "HARNESS-ERROR" in out or not rows or rows[-1].get("ev") != "Done":
@@ -193,17 +212,14 @@ def _conc(ctx, behs, tag, desc, *, rep, scrapers, group, race=False, rounds=1):
         allout += out
         if "HARNESS-ERROR" in out:
             raise vlib.Inconclusive("metrics-count overlay (%s): %s" % (desc, out[-2500:]))
-        if "fatal error: concurrent map" in out:
-            m = re.search(r"(\S*/prometheus/[^\s:]+\.go:\d+)", out[out.index("fatal error: concurrent map"):])
-            where = m.group(1) if m else "prometheus"
-            for pre in (vlib.REPO.rstrip("/") + "/", "/repo/"):
-                if where.startswith(pre):
-                    where = where[len(pre):]
-            ctx.violation({"module": "metrics", "kind": "concurrent-map-access", "where": where},
-                          "the process died with 'fatal error: concurrent map ...' in the metrics collectors under concurrent "
-                          "reports (%s), first collector frame %s" % (desc, where),
+        crash = crash_in_collectors(out)
+        if crash:
+            kind, where, text = crash
+            ctx.violation({"module": "metrics", "kind": kind, "where": where},
+                          "the process died (%s) inside the metrics collectors under concurrent reports and scrapes (%s), first "
+                          "collector frame %s" % (text.splitlines()[0][:160], desc, where),
                           {"module": "MetricsCount", "setup": {"mode": "conc", "rep": rep, "scrapers": scrapers, "group": group},
-                           "output": out[out.index("fatal error: concurrent map"):][:3000]})
+                           "behaviours": behs[:group], "output": text[:3000]})
             return None, allout
         if not rows or rows[-1].get("ev") != "Done":
             if race and "WARNING: DATA RACE" in out:
@@ -260,6 +276,20 @@ def udp_collector_part(ctx):
     _conc(ctx, hammer, "mcUc", "UDP datagram reports x%d against concurrent scrapes" % rep,
           rep=rep, scrapers=3, group=8, rounds=2 if ctx.quick else 4)
     ctx.sample({"collector_udp_behaviour": behs[0][:10]})
+
+
+def location_part(ctx):
+    """C20 at the collector under concurrent use: clients of DIFFERENT location classes (global v4 / global v6 with
+    hundreds of AS numbers, loopback = XL) report TCP connections and UDP datagrams from 8 goroutines at once into ONE
+    collector; at quiescence every per-location series must carry exactly the reports of the clients of its own class."""
+    exhaustive(ctx)
+    n = 32 if ctx.quick else 320
+    behs = gen(ctx, n, ctx.seed + 24, MaxOps=50)
+    behs = [b for b in behs if len({s.get("loc") for s in b if s.get("loc")}) >= 2]
+    if len(behs) < n // 2:
+        raise vlib.Inconclusive("MetricsCount generation produced only %d behaviours with clients of two location classes" % len(behs))
+    _conc(ctx, behs, "mcL", "clients of different location classes, 8 concurrent callers + 2 scrapers", rep=300, scrapers=2,
+          group=8)
 
 
 def concurrent_part(ctx, race=True):
